@@ -11,6 +11,13 @@ R06.2 completion discipline: a store of COMPLETE happens only under the fact (st
 R06.3 flush drains: _ctx_mgr_flush_* returns NULL only over the edge "manager flush returned NULL" and otherwise
       returns resubmit's non-NULL result; each assembly *_mb_mgr_flush_* reaches its `return NULL` only through
       branches on the manager's occupancy fields and stores nothing to the manager on the way.
+R06.7 one manager per kind and context layer: all call sites of _<algo>_mb_mgr_submit_* in a <algo>_ctx_<family>.c unit
+      name the same function, likewise all flush and all init sites (the avx512_ni layers pair submit_avx512 with
+      flush_avx512_ni by design, so kinds are not compared with each other).
+R06.8 lane-stack constants agree with the initial stack: a flush manager that tests "all lanes free" with
+      `bt unused_lanes, k` uses k = the top bit of the value its init function stores into unused_lanes, and a
+      submit manager that tests "no lane free" with `cmp unused_lanes, c` uses c = that value's sentinel (0xF for
+      a nibble stack, 0xFF for a byte stack).
 R06.5 field width: every write at a fixed offset into a scalar field of the manager struct (unused_lanes,
       num_lanes_inuse) starts at the field and has the field's width.
 R06.6 struct mirror: the offsets the assembly uses for job / manager / lane fields (nasm struct symbols) equal the
@@ -199,7 +206,44 @@ def run(chk):
         for sn, ds in M.distructs.items():
             if sn.startswith("ISAL_%s_" % algo):
                 d.setdefault(sn, ds)
-    res = par.map_objects(lib, asm_worker, objs, extra={"structs": structs})
+    # ---- R06.7 / inputs of R06.8: which manager functions each ctx unit uses, and the initial lane stack
+    allmods = ir.load_modules([u for u in units if u["kind"] == "c" and re.match(r"^(sha1|sha256|sha512|md5|sm3)_mb/", u["src"])])
+    init_val = {}
+    for src, M in allmods.items():
+        for F in M.defined():
+            if re.match(r"^_\w+_mb_mgr_init_\w+$", F.name):
+                for I in F.all_insts():
+                    if I.op == "store":
+                        fld = F.field(I.ops[1])
+                        if fld and fld[1] and fld[1][0][1] == "unused_lanes" and F.ptr_root(I.ops[1])[1] == fld[1][0][2]:
+                            c = F.const_int(I.ops[0])
+                            if c is not None:
+                                init_val[F.name] = c & 0xFFFFFFFFFFFFFFFF
+    lane_init = {}
+    nfam = 0
+    for src, M in sorted(ctxmods.items()):
+        used = collections.defaultdict(set)
+        for F in M.defined():
+            for I in F.calls():
+                mm = re.match(r"^(_\w+_mb_mgr_(init|submit|flush))_(\w+)$", I.callee or "")
+                if mm:
+                    used[mm.group(2)].add(I.callee)
+        if not used:
+            continue
+        nfam += 1
+        fams = {k: {c.rsplit("_mb_mgr_" + k + "_", 1)[1] for c in v} for k, v in used.items()}
+        ok = all(len(v) == 1 for v in fams.values())        # per kind: the avx512_ni layers pair submit_avx512 with flush_avx512_ni by design
+        chk.obligation("R06.7", ok, key=(src, "family"), sample={"unit": src, "manager_families": {k: sorted(v) for k, v in fams.items()}})
+        if not ok:
+            chk.finding(Finding("R06.7", src, "<unit>", "manager-family", "this context layer mixes manager families: %s - managers of different families keep different lane-stack conventions in the same state" % {k: sorted(v) for k, v in fams.items()}, loc=src))
+        iv = [init_val.get(c) for c in used.get("init", ())]
+        if len(iv) == 1 and iv[0] is not None:
+            for k in ("submit", "flush"):
+                for c in used.get(k, ()):
+                    lane_init[c] = iv[0]
+    chk.floor("context layers checked for one manager per kind", nfam, 22)
+    chk.floor("manager functions with a known initial lane stack", len(lane_init), 30)
+    res = par.map_objects(lib, asm_worker, objs, extra={"structs": structs, "lane_init": lane_init})
     tot = collections.Counter()
     for objname in sorted(res):
         r = res[objname]
@@ -213,6 +257,8 @@ def run(chk):
     chk.obligations["R06.3-asm"] = [tot["flush"], tot["flush"] - len({f.function for f in chk.findings if f.rule == "R06.3" and f.obj.endswith(".o")})]
     chk.obligations["R06.4-asm"] = [tot["stores"], tot["stores"] - len([f for f in chk.findings if f.rule == "R06.4" and f.obj.endswith(".o")])]
     chk.obligations["R06.6"] = [tot["mirror_fields"], tot["mirror_fields"] - len([f for f in chk.findings if f.rule == "R06.6"])]
+    chk.obligations["R06.8"] = [tot["lane_stack_tests"], tot["lane_stack_tests"] - len([f for f in chk.findings if f.rule == "R06.8"])]
+    chk.floor("lane-stack tests (bt / cmp on unused_lanes) judged", tot["lane_stack_tests"], 12)
     chk.obligations["R06.5"] = [tot["scalar_field_accesses"], tot["scalar_field_accesses"] - len([f for f in chk.findings if f.rule == "R06.5"])]
     chk.floor("struct-mirror fields compared", tot["mirror_fields"], 300)
     chk.floor("scalar manager field accesses", tot["scalar_field_accesses"], 100)
@@ -278,6 +324,35 @@ def asm_worker(lib, objname, extra):
                             out["counts"]["scalar_field_accesses"] += 1
                             if i.writes_mem_operand() and (av[0][2] != mo or sz != ms):
                                 add("R06.5", name, "field-width:" + mn, "`%s` writes %d byte(s) at offset %d of the %d-byte manager field %s" % (i.text.strip(), sz, av[0][2] - mo, ms, mn), i.addr, key[1])
+        # ---- R06.8 lane-stack constants
+        V = (extra or {}).get("lane_init", {}).get(name)
+        ul = [m for m in (mgr["members"] if mgr else []) if m["name"] == "unused_lanes"]
+        if V and ul:
+            uoff = ul[0]["off"]
+            top = V.bit_length() - 1
+            sentinel = 0xFF if top % 8 == 7 and (V >> (top - 7)) & 0xFF == 0xFF and (V & 0xFF00) in (0x0100, 0) and top >= 15 and ((V >> 8) & 0xFF) == 1 else 0xF
+            for bl in f.blocks.values():
+                for k, i in enumerate(bl):
+                    isbt = i.op in ("BT64ri8", "BT32ri8")
+                    iscmp = i.op in ("CMP64ri8", "CMP64ri32", "CMP32ri8", "CMP32ri") and i.imm(1) in (0xF, 0xFF)
+                    if not (isbt or iscmp) or i.mem >= 0:
+                        continue
+                    reg = x86.PARENT.get(i.reg(0))
+                    src_ok = False
+                    for j in reversed(bl[:k]):
+                        if reg in [x86.PARENT.get(r) for r in j.explicit_defs()]:
+                            if j.op in ("SHR64ri", "SHL64ri", "OR64rr", "AND64ri8", "AND64ri32") and j.mem < 0:
+                                continue            # the stack is popped / pushed in the register before the test
+                            av = r.maddr.get(j.addr)
+                            src_ok = j.op in ("MOV64rm", "MOV32rm") and av is not None and av[0][0] == "init" and av[0][1] == "RDI" and av[0][2] == uoff and not av[1]
+                            break
+                    if not src_ok:
+                        continue
+                    out["counts"]["lane_stack_tests"] += 1
+                    if isbt and i.imm(1) != top:
+                        add("R06.8", name, "all-free-test", "`%s` tests bit %d of unused_lanes for 'all lanes free', but the initial lane stack %#x of this family has its sentinel's top bit at %d: flush reports an empty manager while lanes are in use (and runs on when it is empty)" % (i.text.strip(), i.imm(1), V, top), i.addr, key[1])
+                    if iscmp and "submit" in name and i.imm(1) != sentinel:
+                        add("R06.8", name, "no-lane-free-test", "`%s` compares unused_lanes with %#x for 'no lane free', but the sentinel of this family's lane stack (initial value %#x) is %#x" % (i.text.strip(), i.imm(1), V, sentinel), i.addr, key[1])
         # ---- R06.4 store provenance
         for b in f.blocks.values():
             for i in b:
